@@ -240,6 +240,9 @@ def classify(prog, impl, ref):
         return "false-result-to-cycle-parent-assertion"
     if k[0] == "wrong-probability" and feat_ad_body_on_own_head_contradiction(prog):
         return "ad-body-depends-on-own-head-with-contradiction"
+    if k[0] == "wrong-probability" and feat_positive_cycle(prog) and feat_some_complementary_pair(prog):
+        # same root cause without an AD: a conjunction that folds to FALSE is delivered as a result on a positive cycle
+        return "false-conjunct-on-positive-cycle-wrong-probability"
     if k[0] == "non-instance-reported" and feat_query_repeated_var(prog):
         return "query-repeated-variable-reports-non-instance"
     if k[0] == "impl-error" and k[1] == "INTERNAL:AssertionError" and feat_positive_cycle(prog):
